@@ -12,15 +12,16 @@ fn valid(h: &Hist) -> bool { h.all_intervals().iter().all(|x| x.0 < x.1) }
 
 fn exec(t: &[String]) -> Option<String> {
     let h = dec(t)?;
-    let l = h.build();
-    let runs: Vec<Interval<u64, u64>> = super::common::drain_mode(l.depth(), super::common::next_mode());
+    let l = AnyLapper::build_nonneg(&h, split_flavour(t).1, &[]);
+    let runs: Vec<Iv> = l.depth();
     let mut w = W::new();
     w.n(runs.len());
     for r in &runs { w.n(r.start).n(r.stop).n(r.val); }
     Some(w.join())
 }
 
-fn shrink(t: &[String]) -> Vec<Vec<String>> {
+fn shrink(t: &[String]) -> Vec<Vec<String>> { shrink_flavoured(t, shrink0) }
+fn shrink0(t: &[String]) -> Vec<Vec<String>> {
     let Some(h) = dec(t) else { return vec![] };
     let mut out = shrink_hist(&h);
     let min = h.min_start();
@@ -44,6 +45,12 @@ fn gen(rng: &mut Rng, tier: Tier) -> Vec<Case> {
         if !small && rng.chance(1, 2) { let off = base + 50_000 + rng.below(1000); for k in 0..3u64 { h.init.push((off + k, off + 5 + 2 * k, 900 + k)); } } // a separated nested stack
         if i % 6 == 5 { h.lift_to_top(rng.below(4)); } // at the top of the coordinate type
         out.push(Case::new(if small { "boundary" } else { "random" }, enc(&h)));
+    }
+    for c in out.iter_mut() {
+        if c.stream == "exhaustive" { continue; }
+        let ty = gen_ltype(rng);
+        if ty == 0 { continue; }
+        if let Some(mut d) = dec(&c.input) { if rng.chance(1, 2) { spread_for_type(rng, &mut d, ty, false); } c.input = push_flavour(enc(&d), ty); }
     }
     out
 }
